@@ -211,14 +211,14 @@ def run(ctx):
     excl = excluded_ids(findings)
     ctx.rule = ("a case = one complete program (token stream); leg G replays every program TLC enumerated in the small scopes "
                 "(name forms x Scope directives; all object kinds/values/field lists/package-length widths; method bodies with "
-                "forward/nested invocations and If/Else; Field/IndexField/BankField also in the earlier table of a two-table load; two-table loads), leg T draws seeded random programs of 50-400 objects over "
+                "forward/nested invocations and If/Else; dependency chains that need 3 and 4 merge/relocate passes; Field/IndexField/BankField also in the earlier table of a two-table load; two-table loads), leg T draws seeded random programs of 50-400 objects over "
                 "up to three tables; a case is distinct by its token stream and non-trivial when it declares at least one object")
     if excl:
         ctx.assumptions.append("generators leave out the trigger constructs of the open findings %s (predicates in AmlNs.tla); "
                                "each finding's pinned reproducer is run separately" % ",".join(e["id"] for e in findings))
     d = prepare_specs(ctx, excl)
     tier = "Quick" if q else "Full"
-    profiles = ["Forms", "Kinds", "Fields", "Calls", "Tables"]
+    profiles = ["Forms", "Kinds", "Fields", "Chains", "Calls", "Tables"]
 
     # ---- leg M (+ emission for G): the generator's state graph is the tree of program prefixes; LoaderSound and Refines on all of it
     mp = vlib.maxpar()                                   # shared-machine cap on parallelism
@@ -232,8 +232,8 @@ def run(ctx):
     with concurrent.futures.ThreadPoolExecutor(max_workers=pool) as ex:
         case_files = list(ex.map(mc, profiles))
     # design mutants: wrong parser designs, and the pinned design on the trigger constructs of the open findings, must be rejected
-    bugs = ["Bug_MergeIntoObject", "Bug_ArgcFromSyncBits"] if q else \
-           ["Bug_MergeIntoObject", "Bug_UnitsNotAccumulated", "Bug_ArgcFromSyncBits", "Bug_CallsInFirstPass"]
+    bugs = ["Bug_MergeIntoObject", "Bug_CountersResetPerPass"] if q else \
+           ["Bug_MergeIntoObject", "Bug_UnitsNotAccumulated", "Bug_ArgcFromSyncBits", "Bug_CallsInFirstPass", "Bug_CountersResetPerPass"]
     opens = [x for x in (["Open_D1"] if q else ["Open_D1", "Open_D1b", "Open_D2", "Open_D3"]) if x[5:] in excl]
     with concurrent.futures.ThreadPoolExecutor(max_workers=max(1, min(4, mp // 2))) as ex:
         list(ex.map(lambda b: ctx.expect_model_violation(d, "MCAmlNs", "MCAmlNs" + b, workers=2, timeout=900), bugs + opens))
@@ -250,8 +250,10 @@ def run(ctx):
                     lines = [l for l in f if l.strip()]
             emitted += len(lines)
             ctx.cov["legs"]["MCAmlNs%s%s" % (p, tier)]["programs_emitted"] = len(lines)
-            if q and len(lines) > 2000:
-                lines = rnd.sample(lines, 2000)
+            if q and len(lines) > 2000:      # seeded sample; programs the design model resolves in >= 3 passes are always kept
+                deep = [l for l in lines if re.search(r'np\\?":\[[0-9,]*[3-9]', l)]
+                rest = [l for l in lines if l not in set(deep)]
+                lines = deep + rnd.sample(rest, max(0, 2000 - len(deep)))
             gf.writelines(lines)
             n_progs += len(lines)
     if not n_progs:
@@ -276,10 +278,16 @@ def run(ctx):
     viol = judge_trace(ctx, both, "G+T", excl, parallel=6 if q else 16)
     ctx.cov["legs"]["G+T"]["programs_G"] = n_progs
     ctx.cov["legs"]["G+T"]["programs_T"] = n_random
+    passes = {}
     for name, path in (("G-generated", g_out), ("T-random", t_out)):
         ns = 0
+        dist = passes.setdefault(name, {})
         with open(path) as f:
             for line in f:
+                m = re.search(r'"passes":\[([0-9,]*)\]', line)      # merge/relocate passes the REAL parser took per table
+                if m and m.group(1):
+                    k = max(int(x) for x in m.group(1).split(","))
+                    dist[k] = dist.get(k, 0) + 1
                 toks = line.rsplit('"toks":', 1)[1]          # Go writes the keys sorted: id, obs, toks
                 if re.search(r'"k":"(open|method|decl|field)"', toks):
                     ctx.distinct(hashlib.sha1(toks.encode()).hexdigest())
@@ -288,9 +296,16 @@ def run(ctx):
                     ctx.sample({"leg": name, "program": describe(e["toks"])[:700], "res": e["obs"]["res"],
                                 "objects_in_tree": len(e["obs"]["ns"]), "invocations_in_tree": len(e["obs"]["calls"])})
                     ns += 1
+    ctx.cov["legs"]["G+T"]["resolve_passes_of_real_parser"] = {k: dict(sorted(v.items())) for k, v in passes.items()}
+    ctx.log("resolve passes taken by the real parser (programs per maximum over their tables):", passes)
     for v in viol[:3]:
         toks = v.pop("toks")
         ctx.violation(v, {"toks": toks, "open": excl})
+    if not ctx.violations:
+        for name, dist in passes.items():       # vacuity guard: deep dependency chains must have been exercised
+            if not any(k >= 3 for k in dist):
+                raise vlib.Broken("no %s program needed 3 or more merge/relocate passes (%s): the dependency-chain generators are broken"
+                                  % (name, dist))
     run_reproducers(ctx, findings, r_out, excl)
     ctx.cov["legs"]["G+T"]["programs_emitted_by_model"] = emitted
     ctx.cov["exhaustive"] = (not q) and not ctx.violations
